@@ -25,7 +25,8 @@ Record controller (C : Type) := mkController {
   c_aux_info : C -> N -> list attr_view -> bool -> C * flags_res;
   c_end_tag : C -> bytes -> N -> C * N;
   c_token : C -> token -> C * out_res;
-  c_end : C -> C * out_res;
+  (* handle_end: DocumentEnd::append writes to the sink at once, so pieces precede a possible error *)
+  c_end : C -> C * list bytes * option rw_error;
   c_should_emit : C -> bool;
   c_bail_out : C -> rw_error -> C * list bytes;
   c_mem_usage : C -> N;
@@ -879,12 +880,12 @@ Definition finish (s : stream) : stream * call_res :=
   | POk p c n =>
       (* Dispatcher::finish: flush, handle_end, finalizing empty chunk *)
       let d := flush_remaining_input c.(c_disp) chunk (length chunk) in
-      let (c', r) := ctl.(c_end) d.(d_ctl) in
-      let d1 := d_with_ctl d c' in
+      let '(c', pieces, r) := ctl.(c_end) d.(d_ctl) in
+      let d1 := sink_pieces (d_with_ctl d c') pieces in
       let s' := fun dd => mkS p (mkCtx c.(c_sim) dd) s.(s_arena) s.(s_has_buf) (s.(s_prev) + n) s.(s_max_mem) s.(s_bail_mem) s.(s_bail_handler) in
       match r with
-      | OErr e => (s' d1, CErr e)
-      | OOk pieces => (s' (sink_push (sink_pieces d1 pieces) []), COk)
+      | Some e => (s' d1, CErr e)
+      | None => (s' (sink_push d1 []), COk)
       end
   end.
 
@@ -908,7 +909,9 @@ Inductive api_call := Write (data : bytes) | End.
 Inductive api_res := ROk | RErr (e : rw_error) | RPanicPoisoned | RPanic (k : nat) | RUseAfterEnd.
 Definition api_step (r : rewriter) (op : api_call) : rewriter * api_res :=
   if r.(rw_ended) then (r, RUseAfterEnd)       (* end(self) consumes the rewriter: not expressible in Rust *)
-  else if r.(rw_poisoned) then (r, RPanicPoisoned)
+  else if r.(rw_poisoned) then
+    (* the documented panic; end(self) still consumes the rewriter *)
+    (mkRw r.(rw_stream) true (match op with End => true | _ => false end), RPanicPoisoned)
   else
     let '(s', res) := match op with Write d => write r.(rw_stream) d | End => finish r.(rw_stream) end in
     let ended := match op with End => true | _ => false end in
